@@ -170,7 +170,7 @@ Example C09_nonvacuous :
   let c := mkCtx 4096 77 78 0 [0] false 1 in
   let w := mkWorld [(4096, [0]); (8192, [0]); (12288, [0])] [] [] [(4096, 10)] in
   let '(r, ctr', lg) := sframe s c w 0 in
-  clean lg = true /\ length lg = 9%nat /\
+  clean lg = true /\ length lg = 8%nat /\
   (exists ret w', r = SOk ret w' /\
      sload_of (w_storage w') 8192 1 = 11 /\ sload_of (w_storage w') 8192 2 = 0 /\
      sload_of (w_storage w') (CREATE_BASE + 1) 0 = 7 /\
